@@ -362,7 +362,7 @@ func checkNoncePattern(rep *WireReport, s *WSeg, p *appctlpb.TrafficPattern, sid
 		}
 		for i := 0; i < minLen; i++ {
 			if s.Nonce[i] < 0x20 || s.Nonce[i] > 0x7e {
-				rep.add("C16", "nonce-not-printable", fmt.Sprintf("side %d nonce %x byte %d outside 0x20..0x7e (minLen %d)", side, s.Nonce, i, minLen))
+				rep.add("C16", "nonce-not-printable", fmt.Sprintf("side %d nonce %x byte %d outside 0x20..0x7e (minLen %d) on %v hub#%d", side, s.Nonce, i, minLen, s.Meta, s.HubIdx))
 				return
 			}
 		}
@@ -396,7 +396,7 @@ func checkNoncePattern(rep *WireReport, s *WSeg, p *appctlpb.TrafficPattern, sid
 			}
 		}
 		if first && !match {
-			rep.add("C16", "nonce-fixed-prefix-missing", fmt.Sprintf("side %d nonce %x matches none of %v", side, s.Nonce, hs))
+			rep.add("C16", "nonce-fixed-prefix-missing", fmt.Sprintf("side %d nonce %x matches none of %v on %v hub#%d", side, s.Nonce, hs, s.Meta, s.HubIdx))
 		}
 		if !first && long {
 			// A flow's cipher instance can legitimately be replaced (e.g. a
@@ -558,7 +558,10 @@ func analyzeUDP(e *Env, o WireOpts) *WireReport {
 			if dir == simnet.C2S {
 				ws.FlowID = ev.D.From
 			} else {
-				ws.FlowID = fmt.Sprint(seg.Meta.SessionID)
+				// sessions from one client socket share the server-side cipher
+				// instance (existing-session decryption), so "the first packet"
+				// is per client address, not per session
+				ws.FlowID = ev.D.To
 			}
 			rep.Segs = append(rep.Segs, ws)
 			checkSegmentCommon(rep, ws, o, leSeen)
